@@ -141,9 +141,31 @@ def run_config(chk, ctx, name):
             return getattr(chk, nm)
 
         def ob(self, rule, instance, ok, detail="", where=None, key=None, sample=False):
-            if rule.startswith("T1."):
+            if rule.startswith(("T1.", "T3.", "T4.")):
                 chk.ob("H6." + rule, instance, ok, detail, where=where, key=key)
     c12.table_rules(OnlyT1(), F, A, an, tag)
+    # the digit / checksum / chain-range roles of RFC 8554 sections 4.4-4.6 (structure; the arithmetic identity is C12's)
+    c12.role_rules(OnlyT1(), F, A, tag)
+
+    class OnlyP1:
+        """C03's provenance rules for the per-level key generation (level i signs with its own leaf and its own parameter set:
+        'an RFC 8554 LMS signature by that level's current leaf', 'the Appendix-B parameters of its type code')."""
+        configs = []
+
+        def ob(self, rule, instance, ok, detail="", where=None, key=None, sample=False):
+            if rule.startswith("P1."):
+                chk.ob("H7." + rule, instance, ok, detail, where=where, key=key)
+
+        def count(self, *a, **k):
+            pass
+
+        def note(self, *a, **k):
+            pass
+
+        def floor(self, *a, **k):
+            pass
+    from . import c03
+    c03.run_config(OnlyP1(), ctx, name)
     f, padt, order, rows = pt.constructor_table(F, an, A.type_path("LmsAlgorithm"))
     ev = pt.eval_rows(F, an, f, order, rows, {})
     got = {}
